@@ -472,6 +472,19 @@ def register_checker(R):
     def post_hint(E, vars):
         """proof steps for the `return False` exit: the overfull key is the id of a row (the parent row of its first listed child)"""
         k = vars.get("k")
+        if "children" in vars and not isinstance(k, Sym) and ("dictkeys", vars["children"].uid) in E.ghost:
+            # the `return True` exit: every id is a key of the dict (hence was enumerated by the second loop) or names no row as its child
+            ids, pids = vars["topology"]
+            n = ids.nz()
+            d = vars["children"]
+            dom, val, lens = _dview(d)
+            ks, m, pos = E.ghost[("dictkeys", d.uid)]
+            nch = E.spec_extra["nch"]
+            a = z3.Int(fresh_name("a"))
+            ka = ids.get(a).z
+            E.prove("is_bifurcate/step/every-id-is-an-enumerated-key-or-has-no-child",
+                    z3.ForAll([a], z3.Implies(z3.And(0 <= a, a < n), z3.Or(z3.And(z3.Select(dom, ka), pos(ka) >= 0, pos(ka) < m, ks(pos(ka)) == ka), nch(ka, n) == 0))), "annotation")
+            return
         if not isinstance(k, Sym) or "children" not in vars:
             return
         ids, pids = vars["topology"]
@@ -567,12 +580,18 @@ def register_has_cyclic(R):
         pk = z3.Select(P, k)
         E.assume(z3.ForAll([x, y], Conn(k + 1, x, y) == z3.Or(Conn(k, x, y), z3.And(pk != -1, z3.Or(z3.And(Conn(k, x, k), Conn(k, y, pk)), z3.And(Conn(k, x, pk), Conn(k, y, k)))))))
 
-    R.add(f"{CHK}:has_cyclic", prop="C18", setup=setup, returns="bool",
+    def cycle_lemmas(E, fr):
+        E.assumptions.add("assumed-lemma: functional-cycle lemmas (lean/FunctionalCycle.lean): the relation Conn defined by recursion on the number of rows is the "
+                          "equivalence generated by the edges of the rows below i (conn_rec_iff), and some edge j -> pid j joins two rows already connected by the "
+                          "edges of the rows below j exactly when the table contains a directed cycle (functional_cycle); no instance is assumed on the SMT side -- "
+                          "the lemmas turn has_cyclic's postcondition into the property's `the table contains a cycle`")
+
+    R.add(f"{CHK}:has_cyclic", prop="C18", setup=setup, returns="bool", lemmas=[cycle_lemmas],
           options=dict(hints={"loop0/preserved/joined-exactly-when-connected-by-the-edges-so-far": unfold_conn}),
           ensures=[("true-iff-some-edge-joins-two-nodes-already-connected-by-earlier-edges", post)],
           loops={0: dict(invariant=[(nm, inv(nm)) for nm in ("structure-is-a-valid-union-find-of-the-right-size", "joined-exactly-when-connected-by-the-edges-so-far", "no-earlier-edge-closed-a-cycle")],
                          modifies=["dsu"])},
-          notes="an edge closing an undirected cycle among at-most-one-out-edge graphs is a directed cycle (lemma functional_cycle, argued in DESIGN, not mechanised); "
+          notes="an edge closing an undirected cycle among at-most-one-out-edge graphs is a directed cycle (lemma functional_cycle, proved in lean/FunctionalCycle.lean); "
                 "ids are positions and parents are -1 or nodes (the property's quantifier)")
 
 
@@ -586,44 +605,33 @@ def register(R):  # noqa: F811
 
 
 # ===========================================================================
-# checker.py: is_sorted  (traverse client rule)
+# checker.py: is_sorted
 def register_is_sorted(R):
-    from contracts.C04 import depth
-    from pyvc.traverse_rule import Rule
-
     def setup(S):
+        # ANY table of (id, parent id) pairs: forests, tables with cycles, dangling parents, ids that are not positions
         n = S.int("n")
-        S.assume(n.z >= 1)
+        S.assume(n.z >= 0)
         ids, pids = S.arr("int", n=n, name="ids"), S.arr("int", n=n, name="pids")
         ids.frozen = pids.frozen = True
-        i = z3.Int("i_is")
-        P = pids.arr
-        R_ = lambda t: z3.And(t >= 0, t < n.z)
-        # the checker walks down from node 0: its domain are single-rooted acyclic tables with ids = positions (any order of rows)
-        S.assume(z3.ForAll([i], z3.Implies(R_(i), z3.Select(ids.arr, i) == i)))
-        S.assume(z3.Select(P, 0) == -1)
-        S.assume(z3.ForAll([i], z3.Implies(z3.And(i > 0, i < n.z), R_(z3.Select(P, i)))))
-        S.assume(depth(0) == 0)
-        S.assume(z3.ForAll([i], z3.Implies(z3.And(i > 0, i < n.z), z3.And(depth(i) == depth(z3.Select(P, i)) + 1, depth(i) > 0))))
         return dict(topology=(ids, pids))
 
-    def J(E, v, ENT, LEFT, ctx):
-        x = z3.Int(fresh_name("x"))
-        ok = z3.ForAll([x], z3.Implies(z3.And(z3.Select(ENT, x), x != ctx.root), z3.Select(ctx.P, x) < x))
-        return to_z3(v["flag"], "bool") == ok
-
-    def Qe(E, v, x, val, ctx):
-        return to_z3(val, "int") == x
-
     def post(E, v, o):
+        # the property's clause "parents precede children": every row that has a parent carries a larger id than that parent
         ids, pids = o["topology"]
-        n, P = ids.nz(), pids.arr
+        n = ids.nz()
         x = z3.Int(fresh_name("x"))
-        return to_z3(v["result"], "bool") == z3.ForAll([x], z3.Implies(z3.And(x > 0, x < n), z3.Select(P, x) < x))
+        every = z3.ForAll([x], z3.Implies(z3.And(x >= 0, x < n), z3.Or(z3.Select(pids.arr, x) == -1, z3.Select(pids.arr, x) < z3.Select(ids.arr, x))))
+        return to_z3(v["result"], "bool") == every
+
+    def is_bool(E, v, o):
+        r = v["result"]
+        return isinstance(r, bool) or (isinstance(r, Sym) and r.kind == "bool")
 
     R.add(f"{CHK}:is_sorted", prop="C18", setup=setup, returns="bool",
-          ensures=[("true-iff-every-parent-precedes-its-child", post)],
-          options=dict(traverse_rule=Rule(J, Qe=Qe, modifies=[("local", "flag", "bool")], enter_kind="int")))
+          ensures=[("true-iff-every-row-with-a-parent-has-a-larger-id-than-its-parent-on-ANY-table", post),
+                   ("answers-with-a-bool", is_bool)],
+          notes="any table: symbolic number of rows (0 included), arbitrary ids and parent ids (forests, cycles, self loops, dangling parents); "
+                "both input columns frozen; no loop, so the answer is given on every table (the former walk from node 0 did not terminate on a cycle)")
 
 
 _reg_4 = register
@@ -703,6 +711,28 @@ class Table18:
         return z3.ForAll([i], z3.Implies(z3.And(self.R(i), self.e(i) == i), c(i) == i))
 
 
+COMPONENT_LEMMAS = ("assumed-lemma: component lemmas (lean/Components.lean): the clauses that quantify over EVERY labelling constant along edges say "
+                    "`same label exactly when connected` / `all rows connected` / `these two rows are not connected` for the undirected connectivity of the table; "
+                    "no instance is assumed on the SMT side -- the lemmas give the clauses their reading")
+
+
+class AnyName(dict):
+    """loop `rebind` rule for whatever name an array has that the loop body rebinds (`a = f(a)`): a fresh array of the same kind and length"""
+
+    def get(self, key, default=None):
+        def rule(eng, cur):
+            from pyvc.engine import Unsupported
+            from pyvc.values import fresh, kind_of
+
+            if isinstance(cur, SArr):
+                return SArr.fresh(cur.kind, cur.n, name=cur.name)
+            if kind_of(cur) is not None:  # a scalar the loop assigns: an unknown of the same kind (the engine's default)
+                return fresh(kind_of(cur), str(key))
+            raise Unsupported(f"loop rebinds {key} (a {type(cur).__name__})")
+
+        return rule
+
+
 def register_get_dsu(R):
     def setup(S):
         df = S.dframe(SWC_COLS)
@@ -716,6 +746,7 @@ def register_get_dsu(R):
         """proof step at entry: e(i) is a row and carries the looked-up id (from `parents-exist` and the definition of lastrow)"""
         T = Table18(E, fr.vars["df"])
         i = z3.Int("i18")
+        E.assumptions.add(COMPONENT_LEMMAS)
         E.prove("get_dsu/step/every-row-has-a-parent-row", z3.ForAll([i], z3.Implies(T.R(i), z3.And(T.R(T.e(i)), z3.Select(T.ID, T.e(i)) == T.key(i)))), "annotation")
 
     def labels_of(v):
@@ -805,8 +836,8 @@ def register_get_dsu(R):
           lemmas=[edges_resolve],
           options=dict(asserts_after={"dsu": [("labels-start-as-the-parent-rows", initial_labels)]}),
           ensures=[(nm, post(nm)) for nm in POSTS],
-          loops={0: dict(invariant=[(nm, inv(nm)) for nm in SHARED]),
-                 1: dict(invariant=[(nm, inv(nm)) for nm in SHARED + ["no-change-so-far-in-this-pass"]])},
+          loops={0: dict(invariant=[(nm, inv(nm)) for nm in SHARED], rebind=AnyName()),
+                 1: dict(invariant=[(nm, inv(nm)) for nm in SHARED + ["no-change-so-far-in-this-pass"]], rebind=AnyName())},
           notes="holds for every table whose parent ids name rows, WITH OR WITHOUT cycles (partial correctness: termination of the fixpoint "
                 "iteration is not proved); the input frame is frozen (any store into it is a failed frame obligation)")
 
@@ -859,6 +890,7 @@ def register_single_root(R):
              "false-only-if-some-rows-are-not-connected(a-labelling-constant-along-edges-separates-two-rows)"]
     R.add(f"{CHK}:is_single_root", prop="C18", setup=setup,
           requires=[("every-parent-id-names-a-row", pre_parents)], returns="bool",
+          lemmas=[lambda E, fr: E.assumptions.add(COMPONENT_LEMMAS)],
           ensures=[(nm, post(nm)) for nm in POSTS],
           notes="connectivity of the undirected graph of the table, cycles allowed; rests on get_dsu's contract (partial correctness)")
 
@@ -971,6 +1003,7 @@ def register_link_roots(R):
         S.assume(n.z >= 0)
         df = XFrame({c: SArr.fresh(k, n.z, name=f"df_{c}") for c, k in cols.items()}, n.z)
         df.frozen = frozen
+        df.frozen_cols = frozenset(c for c in cols if c != "pid")  # the repair may write parent ids only: any other store is a failed frame-write obligation
         return df
 
     def ghost_state(n):
@@ -1059,11 +1092,18 @@ def register_link_roots(R):
            "forest/other-rows-hang-one-level-below-their-parent-row-in-the-same-tree", "labels-are-equal-exactly-within-a-tree"]
 
     # ------------------------------------------------------------ ghost code: after the store of the new parent id
+    LINK = "link_roots_to_nearest_/link/"
+
     def g_link(E, v):
-        G = v["G"]
-        rt, dp, par = G.fields["rt"].arr, G.fields["dp"].arr, G.fields["par"].arr
+        """runs right after `df.loc[i, pid] = id[argmin]`:
+        (1) the STEP CLAUSES of the property for this link (obligations of kind `assert`: every other root is hung under the nearest row
+            outside its own tree).  With the loop option `lookahead` they are proved in an arbitrary iteration that starts in a state
+            satisfying the invariant AND in the iteration after it, which starts in the state the body really produced;
+        (2) the ghost forest update."""
         import ast as _ast
 
+        G = v["G"]
+        rt, dp, par = G.fields["rt"].arr, G.fields["dp"].arr, G.fields["par"].arr
         # the row being linked is the first component of the loop target (looked up in the carrier's AST: renaming it is harmless)
         fn_node = E.cur_frame.func.node if E.cur_frame is not None and E.cur_frame.func is not None else None
         tgt = [n_.target.elts[0].id for n_ in _ast.walk(fn_node) if isinstance(n_, _ast.For) and isinstance(n_.target, _ast.Tuple) and n_.target.elts
@@ -1073,7 +1113,34 @@ def register_link_roots(R):
         if len(i) != 1 or dis.idx is None:
             raise KeyError("link_roots_to_nearest_: cannot identify the root being linked / the chosen row")
         i, j = i[0].z, dis.idx.z
-        E.ghost["link-step"] = dict(rt=rt, dp=dp, i=i, j=j, mask=dis.mask)  # the state before the update, for the proof steps below
+        d0, d1 = E.top_old["df"], v["df"]
+        n, ID, P1 = zint(d0.n), d0.cols["id"].arr, d1.cols["pid"].arr
+        r0 = by_type(v, RowIter18, "row iterator").sel.flt.kappa(0)
+        mask, data = dis.mask, dis.data
+        # step clauses of the property for this link
+        E.prove(LINK + "the-root-being-linked-is-not-the-first-root(which-heads-another-tree)",
+                z3.And(r0 >= 0, r0 < n, sel(rt, r0) == r0, sel(rt, i) == i, r0 != i), "assert")
+        E.prove(LINK + "some-row-outside-its-own-tree-is-a-candidate(the-first-root's-row-is-not-masked)", z3.Not(mask.get(r0).z), "assert")
+        x = z3.Int("x18")
+        E.prove(LINK + "nothing-but-parent-ids-of-roots-has-been-written",
+                z3.And(z3.BoolVal(list(d1.cols) == list(d0.cols)), zint(d1.n) == n,
+                       z3.ForAll([x], z3.Implies(z3.And(x >= 0, x < n, sel(d0.cols["pid"].arr, x) != -1), sel(P1, x) == sel(d0.cols["pid"].arr, x))),
+                       *[z3.ForAll([x], z3.Implies(z3.And(x >= 0, x < n), sel(d1.cols[c].arr, x) == sel(d0.cols[c].arr, x))) for c in d0.cols if c != "pid"]), "assert")
+        E.prove(LINK + "the-root-gets-as-parent-the-id-of-a-row-outside-its-own-tree", z3.And(j >= 0, j < n, sel(rt, j) != i, sel(P1, i) == sel(ID, j)), "assert")
+        y = z3.Int(fresh_name("any_row"))
+        dy = data.get(y).z
+        M = getattr(data, "norm_of", None)
+        if M is None:
+            raise KeyError("link_roots_to_nearest_: the distance array is not the row norm of a matrix")
+        comp = [to_z3(Sym(sel(c, y), M.kind), "real") for c in M.cols]
+        diff = [sel(d0.cols[c].arr, y) - sel(d0.cols[c].arr, i) for c in ("x", "y", "z")]
+        sumsq = lambda ts: sum((t * t for t in ts), z3.RealVal(0))
+        # three components: named one by one (linear facts); any other shape: the polynomial identity itself
+        same = z3.And(*[cv == dv for cv, dv in zip(comp, diff)]) if len(comp) == 3 else sumsq(comp) == sumsq(diff)
+        E.prove(LINK + "the-distance-array-holds-the-euclidean-distances-of-the-input-coordinates-to-the-root",
+                z3.Implies(z3.And(y >= 0, y < n), z3.And(dy >= 0, dy * dy == sumsq(comp), same)), "assert")
+        E.prove(LINK + "no-row-outside-its-own-tree-is-nearer", z3.Implies(z3.And(y >= 0, y < n, sel(rt, y) != i), data.get(j).z <= dy), "assert")
+        # ghost update: the tree of i now hangs under row j
         x = z3.Int("x18")
         moved = sel(rt, x) == i
         G.fields["rt"].arr = z3.Lambda([x], z3.If(moved, sel(rt, j), sel(rt, x)))
@@ -1081,25 +1148,6 @@ def register_link_roots(R):
         G.fields["par"].arr = z3.Store(par, i, j)
 
     GHOST = [(lambda txt: ".loc[" in txt.split("=")[0] and ".iloc[" in txt, g_link)]
-
-    def step_hint(E, v):
-        """proof steps of one iteration (each its own obligation): the first root's tree is another tree, so argmin picks a row of another tree"""
-        st = E.ghost.get("link-step")
-        if st is None or "G" not in v:
-            return
-        it = by_type(v, RowIter18, "row iterator")
-        kappa, n = it.sel.flt.kappa, zint(v["df"].n)
-        rt, i, j, mask = st["rt"], st["i"], st["j"], st["mask"]
-        r0 = kappa(0)
-        E.prove("link_roots_to_nearest_/step/the-first-root-heads-another-tree", z3.And(r0 >= 0, r0 < n, sel(rt, r0) == r0, sel(rt, i) == i, r0 != i), "annotation")
-        E.prove("link_roots_to_nearest_/step/some-row-lies-in-another-tree", z3.Not(mask.get(r0).z), "annotation")
-        E.prove("link_roots_to_nearest_/step/the-chosen-row-lies-in-another-tree", z3.And(j >= 0, j < n, sel(rt, j) != i), "annotation")
-
-    class AnyName(dict):
-        """rebind rule for whatever name the label array has: a fresh int array of the same length"""
-
-        def get(self, key, default=None):
-            return lambda eng, cur: SArr.fresh(cur.kind, cur.n, name=cur.name)
 
     # ------------------------------------------------------------ postconditions
     def witnesses(E, v, n):
@@ -1143,10 +1191,12 @@ def register_link_roots(R):
              "no-cycle-introduced(every-row-hangs-one-level-below-its-parent-row,the-first-root-is-the-only-row-at-depth-0)"]
     R.add(f"{NORM}:link_roots_to_nearest_", prop="C18", setup=setup, requires=PRE, modifies=["df"],
           ensures=[(nm, post(nm)) for nm in POSTS] + [("attributes-untouched", other_cols)],
-          loops={0: dict(invariant=[(nm, inv(nm)) for nm in INV], modifies=["G", "df"], rebind=AnyName())},
-          options=dict(ghost_after=GHOST, hints={"loop0/preserved/only-the-parent-column-is-written": step_hint}),
-          notes="which foreign row is chosen (the nearest) is not part of the property: the contract needs only that argmin over the rows of OTHER trees "
-                "returns a row of another tree; termination of get_dsu is not proved")
+          loops={0: dict(invariant=[(nm, inv(nm)) for nm in INV], modifies=["G", "df"], rebind=AnyName(), lookahead=True)},
+          options=dict(ghost_after=GHOST),
+          notes="postconditions: single-rooted, first root kept, every original edge and attribute kept, no cycle (depth witness); step claims per link "
+                "(kind assert, proved with a one-iteration lookahead): the root is not the first one, gets as parent the id of a row OUTSIDE its own tree, "
+                "no row outside its own tree is nearer (Euclidean distance of the input coordinates, over the reals), nothing but parent ids is written; "
+                "termination of get_dsu is not proved")
 
     def on_result(clause):
         def f(E, v, o):
